@@ -3,7 +3,9 @@ and free JSON values.  Every random choice comes from the `random.Random` passed
 import random
 
 TITLES = ["Thing", "thing", "Other", "my object", "Thing", "Pt", "node"]
-PROP_NAMES = ["a", "b", "c", "d", "a b", "a_b", "class", "x-y", "1st", "é", "id", "_p", "n$", "def"]
+PROP_NAMES = ["a", "b", "c", "d", "a b", "a_b", "class", "x-y", "1st", "é", "id", "_p", "n$", "def",
+              # a JSON name that is a Python keyword plus one underscore; names of annotation-only schema keywords
+              "from_", "examples"]
 PATTERNS = ["^a", "b$", "^[a-c]+$", "x", ".*", "^$", "^.$", "[0-9]", "_"]
 FORMATS = ["uuid", "date-time", "unknown-fmt", "email"]
 STRINGS = ["", "a", "b", "ab", "abc", "x", "a b", "é", "1", "xyz", "aaaa",
